@@ -453,7 +453,21 @@ def run_cell(h, cell, tier, seed, budget_s):
                 key = json.dumps(_js(inp_exact), sort_keys=True)
                 if h.nontrivial(inp_exact, out_c, cell):
                     distinct.add(hashlib.sha1(key.encode()).hexdigest())
-                if diff or fails:
+                if fails:
+                    # the real stack violates the oracle on a witness of this path although the symbolic run proved the
+                    # path: a concrete counterexample (already "replayed": it *is* the real run).  Reported as a
+                    # violation; the disagreement with the models (usually aliasing / in-place state the numpy and
+                    # pandas models do not share) is recorded with it.
+                    for lab_, det_ in fails[:3]:
+                        sig_ = _sig(h, lab_, to_float(inp_exact), cell, det_)
+                        if sig_ in seen_sigs:
+                            continue
+                        seen_sigs[sig_] = True
+                        res["violations"].append({"label": lab_, "cell": cell, "model_kind": "trace-validation witness", "inputs": _js(inp_exact), "reproduced": True,
+                                                  "real_outputs": _js(out_c), "uf_table": _js(getattr(h.__dict__.get("_world_cache", {}).get(("conc", cell["name"])), "memo", {})),
+                                                  "failure": _js(det_), "signature": sig_, "paths_violating": 1,
+                                                  "note": "found while validating an explored path against the real stack; symbolic/real difference: %s" % (diff or "none in the compared outputs")})
+                elif diff:
                     res["validation_errors"].append({"inputs": _js(inp_exact), "diff": diff, "oracle_failures": _js(fails)})
                 elif len(res["samples"]) < 3:
                     res["samples"].append(
